@@ -43,6 +43,10 @@ def gen_doc(r, dup_ok=True, mode=None, sections_missing_ok=True):
             ident["processName"] = r.choice(PNAMES)
         if r.random() < 0.3:
             ident["exePath"] = r.choice(EXES)
+        if r.random() < 0.1:
+            # an attribute stated as the empty string is still stated: it must equal the caller's (so it matches no real caller)
+            for k in r.sample(["userName", "groupName", "processName", "exePath"], r.randrange(1, 5)):
+                ident[k] = ""
         idents.append(ident)
     inames = [i["name"] for i in idents] + ["nobody"]
     roles = []
